@@ -248,8 +248,12 @@ def run_check(prop, tier, seed):
     ev = dict(property_id=prop, tier=tier, seed=int(seed), level=getattr(mod, 'LEVEL', 'exploration'),
               coverage=coverage, assumptions=list(getattr(mod, 'ASSUMPTIONS', [])), wall_s=round(wall, 2),
               violations=sum(counters.get('violation:' + k, 0) for k in unknown_keys))
-    os.makedirs(os.path.join(ROOT, 'evidence'), exist_ok=True)
-    with open(os.path.join(ROOT, 'evidence', prop + '.json'), 'w') as f:
+    # evidence/ only ever describes runs against /repo itself; runs against a scratch copy (selftest, seeded changes) go elsewhere
+    target = os.path.realpath(os.environ.get('VERIF_REPO', '/repo'))
+    evdir = os.path.join(ROOT, 'evidence') if target == os.path.realpath('/repo') else os.path.join(ROOT, 'out', 'evidence_scratch')
+    ev['coverage']['repo'] = target
+    os.makedirs(evdir, exist_ok=True)
+    with open(os.path.join(evdir, prop + '.json'), 'w') as f:
         json.dump(ev, f, indent=1, sort_keys=True)
         f.write('\n')
     shutil.rmtree(tmp, ignore_errors=True)
